@@ -25,6 +25,9 @@ from sim.core import OK, VIOLATION, DISCARD, sub_rng
 STEP_BUDGET = 60_000
 
 
+ANY = "\x00any"  # a read whose value is not observable (only its place in the stream matters)
+
+
 class Mismatch(Exception):
     def __init__(self, clause, detail):
         super().__init__(detail)
@@ -76,6 +79,16 @@ def render_events(events, in_body):
             lam = "λ W ⅛ " + render_events(body, True) + " 0 ;"
             pre = lit_args(call_sents)
             out.append(f"{lam} →{name} ⟨{lit(pair[0])}|{lit(pair[1])}⟩ ←{name} R _ " + (pre + " " if pre else "") + f"←{name} † _")
+        elif k == "amp":
+            # `&` with a dyad: pushes the register, then pops TWO values for its function -- on an empty stack the second is
+            # an implicit read.  Its value ends up inside the register in a quirky shape; what is judged is that exactly one
+            # read happened here (every later read is in its place in the stream).
+            out.append("9 £ &\" ¥ _")
+        elif k == "par":
+            # `₌` / `₍`: both functions take their arguments "from the same stack": on an empty stack the first reads its
+            # arguments, then the second reads its own.  `:` and `"` hand their arguments back unchanged.
+            mod, fa, fb = ev[1], ev[2], ev[3]
+            out.append(mod + fa + fb + " W ⅛")
         elif k == "tilde":
             # `~"`: the modifier pops its element's two arguments WITHOUT removing them (retain_popped): on an empty stack
             # that is two implicit reads whose values stay on the stack, followed by the pair built from them
@@ -205,6 +218,22 @@ class Monitor:
                 child2 = Scope("call", args2)
                 self.calls.append(child2)
                 self.walk(body, child2)
+            elif k == "amp":
+                scope.groups.append([ANY])
+            elif k == "par":
+                mod, fa, fb = ev[1], ev[2], ev[3]
+                v = self.take("parallel apply")
+                if mod == "₍":
+                    if not (isinstance(v, list) and len(v) == 1 and isinstance(v[0], list) and len(v[0]) == 2):
+                        raise Mismatch("shape", f"₍ on an empty stack left {v}")
+                    v = v[0]
+                if not (isinstance(v, list) and len(v) == 2):
+                    raise Mismatch("shape", f"{mod} on an empty stack left {v}")
+                for res, f_ in zip(v, (fa, fb)):
+                    g = [res] if f_ == ":" else (list(res) if isinstance(res, list) else None)
+                    if g is None or len(g) != (1 if f_ == ":" else 2):
+                        raise Mismatch("shape", f"{mod}{fa}{fb}: function {f_} returned {res}")
+                    scope.groups.append(g)
             elif k == "tilde":
                 v = self.take("retaining pop")
                 if not isinstance(v, list) or len(v) != 3 or not isinstance(v[2], list) or len(v[2]) != 2:
@@ -268,6 +297,9 @@ class Monitor:
         p = 0
         for g in self.top.groups:
             want = [self.inputs[(p + j) % n] if n else 0 for j in range(len(g))]
+            if ANY in g:
+                p += len(g)
+                continue
             if sorted(map(key, g)) != sorted(map(key, want)):
                 raise Mismatch("top-order" if n else "no-input-zero",
                                f"top-level reads {p}..{p + len(g) - 1} delivered {g}, expected {want} "
@@ -280,7 +312,7 @@ class Monitor:
                 continue
             if m == 0:
                 for g in sc.groups:
-                    if any(v != 0 for v in g):
+                    if any(v != 0 and v != ANY for v in g):
                         raise Mismatch("call-zero", f"implicit read in a call without arguments delivered {g}")
                 continue
             ok = False
@@ -288,7 +320,7 @@ class Monitor:
                 pos, good = 0, True
                 for g in sc.groups:
                     want = [sc.args[perm[(pos + j) % m]] for j in range(len(g))]
-                    if sorted(map(key, g)) != sorted(map(key, want)):
+                    if ANY not in g and sorted(map(key, g)) != sorted(map(key, want)):
                         good = False
                         break
                     pos += len(g)
@@ -373,9 +405,13 @@ class C11(core.Check):
                 evs.append(["over", [sent()] if r.random() < 0.4 else []])
             elif x < 0.57:
                 evs.append(["tilde"])
-            elif x < 0.61 and depth < 2:
+            elif x < 0.585:
+                evs.append(["amp"])
+            elif x < 0.60:
+                evs.append(["par", r.choice(["₌", "₍"]), r.choice([":", "\""]), r.choice([":", "\""])])
+            elif x < 0.625 and depth < 2:
                 evs.append(["zcall", r.choice(["S", "Ḟ"]), self.gen_events(r, depth + 1, 0, maps, True, sent)[:2]])
-            elif x < 0.64 and depth < 1 and not in_body:
+            elif x < 0.65 and depth < 1 and not in_body:
                 a_, b_ = sent(), sent()
                 while not (isinstance(a_, int) and isinstance(b_, int)):
                     a_, b_ = sent(), sent()
@@ -475,7 +511,7 @@ class C11(core.Check):
             case["trailing_empty"] = True
         if driver == "repl":
             # a REPL session: an optional earlier line that fails inside a lambda, then one line of top-level reads
-            case["events"] = [e for e in events if e[0] in ("exp", "imp", "over", "tilde")][:4] or [["imp", 1, []]]
+            case["events"] = [e for e in events if e[0] in ("exp", "imp", "over", "tilde", "par")][:4] or [["imp", 1, []]]
             case["events"] = [(e[:3] if e[0] == "imp" else e[:1] if e[0] == "exp" else e) for e in case["events"]]
             case["repl_fault"] = rw.choice([None, None, "4 λ1 0%;†", "7 8 λ2|`a`0%;†", "@q:1|1 0%; 5 @q;", "3 ƛ1 0%;"])
             case["stdin"], case["stdin_after"] = [], "EOF"
